@@ -37,10 +37,10 @@ def word_alphabet(w, L, extra=()):
     ww = w.bit_length() - 1
     dw = 2 * w
     in_addr = 3 * w + w.bit_length()
-    vals = [0, 1, dw, dw + 1, in_addr, in_addr - dw + 1]
+    vals = [0, 1, dw, dw + 1, dw + 2, in_addr, in_addr + 1]  # both sides of every reachable IO boundary (ip = in_addr-2w is < 2w: unreachable)
     for k in range(L):
         vals += [k * w, k * w + 1, k * w + w - 1]
-    vals += [L * w - 1, L * w, (1 << w) - dw, (1 << w) - w, (1 << w) - 1]
+    vals += [L * w - 1, L * w, (1 << w) - w, (1 << w) - 1]
     vals += list(extra)
     seen, out = set(), []
     for v in vals:
